@@ -33,7 +33,8 @@ STATE_MEASURE = 'distinct (clients, proxy kind, calls in flight, outcome kind) t
 PROBES = ['proxy-introspected', 'proxy-explicit', 'proxy-by-name', 'three-calls-in-flight',
           'two-callers-one-exporter', 'remote-error-mirrored', 'call-to-second-exporter',
           'same-serial-two-clients', 'exporter-calls-itself-through-bus', 'big-endian-foreign-call', 'implementation-answers-later',
-          'late-answers-out-of-order']
+          'late-answers-out-of-order', 'proxy-with-reordered-or-partial-interfaces',
+          'proxy-call-without-interface', 'proxy-introspected-replacing-cache']
 COMPONENTS = {
     'real': ['txdbus.bus.Bus / BusProtocol (routing, Hello, RequestName)', 'BusAuthenticator + '
              'mechanisms', 'txdbus.client.DBusClientConnection x 2-4', 'txdbus.objects (proxies, '
@@ -151,41 +152,65 @@ def scenario(ctx):
     budget = [0]
 
     def get_proxy(c, s):
-        kind = ds.pickw([('introspect', 4), ('explicit', 3), ('by-name', 2)])
+        kind = ds.pickw([('introspect', 4), ('explicit', 3), ('by-name', 2), ('introspect-replace', 1)])
         p = {'owner': c, 'svc': s, 'kind': kind, 'prox': None, 'failed': None}
+        descs = list(s['cs'].all_ifaces())
+        if kind in ('explicit', 'by-name') and len(descs) > 1 and ds.flag(0.5):
+            # the proxy is declared with the interfaces in another order, or only some of them
+            descs = ds.shuffle(descs)
+            if ds.flag(0.4):
+                descs = descs[:1 + ds.choose(len(descs) - 1)]
+            sim.probe('proxy-with-reordered-or-partial-interfaces')
+        p['descs'] = descs
 
         def run():
             cl = c['proto']
+            replace = False
             if kind == 'introspect':
                 ifs = None
+            elif kind == 'introspect-replace':
+                # the caller's cache holds an outdated definition of one of the interfaces;
+                # it asks for the cache to be replaced by what introspection finds
+                from txdbus import interface as ti
+                stale = descs[0]
+                ti.DBusInterface(stale.name, ti.Method('Obsolete', 'i', 's'))
+                ifs = None
+                replace = True
             elif kind == 'explicit':
-                ifs = [gen.tx_interface(d, register=False) for d in s['cs'].all_ifaces()]
+                ifs = [gen.tx_interface(d, register=False) for d in descs]
             else:
-                for d in s['cs'].all_ifaces():
+                for d in descs:
                     gen.tx_interface(d, register=True)
-                ifs = [d.name for d in s['cs'].all_ifaces()]
+                ifs = [d.name for d in descs]
             dest = s['name'] if ds.flag(0.7) else rig.unique(s['exp'])
             p['dest'] = dest
-            d = cl.getRemoteObject(dest, s['path'], ifs)
+            d = cl.getRemoteObject(dest, s['path'], ifs, replace)
             d.addCallbacks(lambda prox: p.__setitem__('prox', prox),
                            lambda f: p.__setitem__('failed', f))
         rig.call(c, run)
         sim.probe('proxy-' + {'introspect': 'introspected', 'explicit': 'explicit',
-                              'by-name': 'by-name'}[kind])
+                              'by-name': 'by-name', 'introspect-replace': 'introspected-replacing-cache'}[kind])
         proxies.append(p)
         sim.log('op', 'proxy', c['name'], s['name'], kind)
 
     def issue(p):
         s = p['svc']
-        cands = [(d, m) for d in s['cs'].all_ifaces() for m in d.methods]
+        cands = [(d, m) for d in p['descs'] for m in d.methods]
         if not cands:
             return
         d, (mn, si, so) = cands[ds.choose(len(cands))]
+        kw = {'interface': d.name}
+        if ds.flag(0.35):
+            # no interface named: the first interface of the proxy that declares the member
+            kw = {}
+            d = next(x for x in p['descs'] if x.method(mn))
+            mn, si, so = d.method(mn)
+            sim.probe('proxy-call-without-interface')
         ref, txv = gen.tx_body(ds, si)
         c = p['owner']
         nsent = len(c['sent'])
         try:
-            dd = rig.call(c, p['prox'].callRemote, mn, *txv, interface=d.name)
+            dd = rig.call(c, p['prox'].callRemote, mn, *txv, **kw)
         except Exception as e:
             raise Violation('C11/call-raised', exc_key(e),
                             'proxy.callRemote(%s.%s, %r) raised %r (proxy kind %s)'
